@@ -238,6 +238,18 @@ rfbTranslateNone(char *table, rfbPixelFormat *in, rfbPixelFormat *out,
 
 
 /*
+ * A colour channel fits into a pixel of bitsPerPixel (8..32) bits if its
+ * shifted maximum does.
+ */
+
+static rfbBool
+rfbChannelFitsPixel(uint16_t max, uint8_t shift, uint8_t bitsPerPixel)
+{
+    return shift < bitsPerPixel &&
+           (((uint64_t)max << shift) >> bitsPerPixel) == 0;
+}
+
+/*
  * rfbSetTranslateFunction sets the translation function.
  */
 
@@ -282,6 +294,22 @@ rfbSetTranslateFunction(rfbClientPtr cl)
         rfbErr("rfbSetTranslateFunction: client has colour map "
                 "but %d-bit - can only cope with 8-bit colour maps\n",
                 cl->format.bitsPerPixel);
+        rfbCloseClient(cl);
+        return FALSE;
+    }
+
+    /*
+     * Every colour channel of a true colour client must fit into the pixel:
+     * the table initialisers and the encoders shift by these client-chosen
+     * values, and shifting by the width of the type or more is undefined.
+     */
+
+    if (cl->format.trueColour &&
+        !(rfbChannelFitsPixel(cl->format.redMax, cl->format.redShift, cl->format.bitsPerPixel) &&
+          rfbChannelFitsPixel(cl->format.greenMax, cl->format.greenShift, cl->format.bitsPerPixel) &&
+          rfbChannelFitsPixel(cl->format.blueMax, cl->format.blueShift, cl->format.bitsPerPixel))) {
+        rfbErr("rfbSetTranslateFunction: client colour channels do not fit "
+                "into %d bits per pixel\n", cl->format.bitsPerPixel);
         rfbCloseClient(cl);
         return FALSE;
     }
